@@ -50,6 +50,7 @@ func New[A p2p.Addr, Pub any](x p2p.SecureSwarm[A, Pub], mtu int, opts ...Option
 		inner:      x,
 		mtu:        mtu,
 		numWorkers: config.numWorkers,
+		counter:    firstCounter(),
 
 		cf:        cf,
 		fragLayer: newFragLayer(),
